@@ -619,6 +619,16 @@ func (r *JobRun) runOp(op *Op, i int) *Violation {
 	if r.svc != nil {
 		brokenAnswer = r.svc.fired
 	}
+	if prop == "C10" && r.svc != nil {
+		// whatever the outcome: the service is sent an entity at most once in a run
+		seen := map[string]bool{}
+		for _, x := range flatten(r.svc.got) {
+			if seen[x] {
+				return viol("C10", "transform-delivery", "entity-sent-to-the-transform-twice", "source entity %s was sent to the transform service twice in one run (the service's record of the run: %v)", shortURI(x), shortAll(flatten(r.svc.got)))
+			}
+			seen[x] = true
+		}
+	}
 	if prop == "C10" && brokenAnswer != "" && lastErr == "" {
 		return viol("C10", "transform-delivery", "run-succeeds-on-broken-transform-answer", "the transform service's answer to request %d of the run was broken off (%s), the run ended as a success: what the service had not yet returned never reaches the sink", intOf(r.svc.fault, "at"), brokenAnswer)
 	}
